@@ -34,8 +34,10 @@ def cases(ctx):
             yield {'N': s, 'sched': [rng.randint(0, 5) for _ in range(8)], 'edit': False}
     for i in range(1200 if not thorough else 12000):
         s = gen.big_subset_nfa(rng) if i % 40 == 11 else gen.random_nfa(rng, names=ODD if i % 25 == 7 else None)
+        if i % 14 == 9:
+            s['frozen'] = rng.choice(['delta', 'all'])
         if not thorough or ctx.mine(i):
-            yield {'N': s, 'sched': [rng.randint(0, 5) for _ in range(8)], 'edit': i % 6 == 2}
+            yield {'N': s, 'sched': [rng.randint(0, 5) for _ in range(8)], 'edit': i % 6 == 2 and not s.get('frozen')}
 
 
 def lean_requests(c):
